@@ -9,6 +9,10 @@ CLAIMED["C06"] = {
     "text": "Inductive bounded model checking: from any render context whose tracked product (carry x loop-stack lengths) equals the true product P <= N (symbolic carry, 0..2 symbolic enclosing loops), ONE real repeating construct (for, tablerow, include/render with array, plain render/include/call/with/if/case, liquid) runs around a probe tag over a collection of symbolic length with a symbolic limit N; z3 decides on every path that it raises LoopIterationLimitError iff P*len > N before the block runs, else the block runs len times seeing P*len and the caller's product is restored. Whole-render nests of depth 2-3 (20 skeletons) cross-check the composition. All conditions exhaust their path tree.",
     "note": "Trusted: CrossHair/z3; the probe tag registered in the harness environment; induction argument (post-state of a step has the pre-state's shape). Bounds: carry and lengths 1..6 (1..12 thorough), n <= 4 (8), N <= 200; skeleton family listed in harness/c06.py.",
 }
+CLAIMED["C24"] = {
+    "text": "Inductive bounded model checking: ONE public operation (set/get/getitem/del/contains/len/keys/values/items/iter, symbolic op selector, key and value) of the real LRUCache and ThreadSafeLRUCache from an arbitrary valid state (n <= capacity <= 4 distinct unbounded symbolic int keys, arbitrary recency order; also string keys) against a list model; the post-state has the pre-state's shape so histories of any length follow. Thread-safety: a lock monitor in the dict stub shows every dict access (incl. each iterator step) is made under the lock, and a listing interleaved with a symbolic write at a symbolic point never fails and is a snapshot. All conditions exhaust their path tree.",
+    "note": "Trusted: CrossHair/z3; ModelOD stub for collections.OrderedDict (differentially validated against the real class on every run); threads modelled at lock/iterator-step granularity, not real preemption.",
+}
 NOT_APPLICABLE = {
     "C11": "delimiters flow only into re.escape/re.compile and functools.lru_cache keys (C code needing concrete values): no dimension is left for a solver to decide; enumerating delimiter sets would be bounded testing, a different technique (DESIGN.md §6)",
 }
